@@ -51,7 +51,7 @@ ASSUMPTIONS = [
     '0.925) and under C11/quantile-inaccurate-* elsewhere; the judgement itself is the same everywhere',
 ]
 MIN_DISTINCT = {'quick': 5000, 'thorough': 30000}
-CASE_TIMEOUT = 300
+CASE_TIMEOUT = 900  # watchdog only (inconclusive, never a verdict); big cases take ~8 s on an idle machine
 
 EXPECTED_NAMES = [
     'UNIFORM', 'UNIFORM_ANTI', 'UNIFORM_HALTON2', 'UNIFORM_HALTON3', 'UNIFORM_HALTON5', 'UNIFORM_MLHS',
